@@ -30,7 +30,7 @@ def run(tier):
             if c['inv'] & 16:
                 return 'slot totals exceed twice the documented per-worker constants'
             if c['inv']:
-                return 'scheduler counter invariant broken (flags %d)' % c['inv']
+                return 'invariant broken: ' + sched.inv_text(c['inv'], c.get('note', ''))
             if c['kind'] != 'exit' or c['code'] != 0:
                 return 'ended by %s(%s)' % (c['kind'], c['code'])
             if expected_len is not None and c['stdout_len'] != expected_len:
@@ -49,6 +49,54 @@ def run(tier):
             for mode in ([], ['-u']):
                 ex.add('compress', 'fast', [w, '-1'] + mode, inputs.shape(sp), orc_for(None),
                        'shape=%s W=%d %s' % (sp, W, ' '.join(mode)), {'heap_limit': 1})
+    # speculative decoding: blocks found by the scanner that the parser later rejects hold decoder state and output
+    # buffers; every one of them must be given back (planted headers, complete planted blocks, bait in trailing data)
+    from checks import C10
+    spec = [(n, d) for n, d in C10.streams(tier) if n in ('i:two copies', 'i:both blocks', 'iii:3blk+fake block', 'iv:badcrc+bait',
+                                                           'vi:carrier 3 fakes', 'vi:carrier bomb', 'vi:2 carriers', 'vi:carrier fake300')]
+    def orc_spec(c):
+        if c['sanitizer']:
+            return 'sanitizer report'
+        if c['inv'] & ~64:
+            return 'invariant broken: ' + sched.inv_text(c['inv'], c.get('note', ''))
+        if c['kind'] != 'exit':
+            return 'ended by %s(%s)' % (c['kind'], c['code'])
+        return None
+    for name, data in spec:
+        for W in (2, 3):
+            for ig in ((32,) if quick else (16, 32, 64)):
+                ex.add('decompress-speculation', 'fast', ['-n%d' % W, '-d'], data, orc_spec, '%s W=%d in_granul=%d' % (name, W, ig),
+                       {'heap_limit': 1, 'setenv': {'LBZIP2_VERIF_IN_GRANUL': str(ig), 'LBZIP2_VERIF_OUT_GRANUL': '64'}})
+    # canonical schedules over the whole family of streams with spurious headers x W x buffer sizes
+    cases, meta = [], []
+    for name, data in C10.streams(tier):
+        for W in (2, 3):
+            for ig in (8, 16, 32, 64):
+                for og in (0, 64):
+                    if og and name.startswith('v:py'):
+                        continue        # a long stream with tiny buffers only exceeds the horizon of the harness
+                    for pol in (0, 1, 2):
+                        env = {'LBZIP2_VERIF_IN_GRANUL': str(ig)}
+                        if og:
+                            env['LBZIP2_VERIF_OUT_GRANUL'] = str(og)
+                        cases.append({'argv': ['lbzip2', '-d', '-n%d' % W], 'env': env, 'stdin': data, 'policy': pol})
+                        meta.append((name, W, ig, og, pol, data))
+    nrej = 0
+    for x, (name, W, ig, og, pol, data) in zip(lbzx.batch('fast', cases, timeout=120), meta):
+        nrej += 1 if x['events'].get('x-reorder-reject') else 0
+        if x['kind'] in ('horizon', 'timeout', 'none', 'diverge', 'unmodelled'):
+            common.harness_error('C13 canonical sweep: %s on %s' % (x['kind'], name))
+        if x['inv'] & ~64 or x['sanitizer'] or x['kind'] != 'exit':
+            chk.violation('C13|spec-canon|%s|%d' % (name.split(':')[0], x['inv']),
+                          'stream %s, -d -n%d in_granul=%d out_granul=%s policy P%d: %s(%s) %s' % (
+                              name, W, ig, og or 'stock', pol, x['kind'], x['code'], sched.inv_text(x['inv']) if x['inv'] & ~64 else x['stderr_head']),
+                          {'engine': 'lbzx-batch', 'argv': ['lbzip2', '-d', '-n%d' % W], 'policy': pol, 'stdin_hex': data.hex()[:8000],
+                           'env': {'LBZIP2_VERIF_IN_GRANUL': str(ig), 'LBZIP2_VERIF_OUT_GRANUL': str(og)}})
+    chk.leg('decompress-speculation-canonical', cases=len(cases), runs_that_rejected_a_spurious_block=nrej)
+    chk.cov['evaluations'] += len(cases)
+    def nthr(c):
+        return int(c.args[0][2:]) + 3
+    ex.run_priorities(nthr, cells=[c for c in ex.cells if nthr(c) <= (5 if quick else 6)])
     maxd = 1 if quick else 2
     done = -1
     for d in range(0, maxd + 1):
@@ -105,9 +153,9 @@ def run(tier):
                                   'compressing %d chunks (W=%d %s): %s; peak %.2f MB bound %.2f MB' % (
                                       units, W, ' '.join(mode), why, r['heap_peak'] / 1e6, r['heap_limit'] / 1e6),
                                   {'engine': 'lbzx', 'cmdline': ' '.join(r['cmd'])})
-    tot = ex.finish_cov('every execution with <= d deviations; invariant at every scheduling point: live heap bytes <= '
+    tot = ex.finish_cov('every execution with <= d deviations and under every strict-priority scheduler; invariants: at every scheduling point live heap bytes <= '
                         'bound(W) computed from the running program (slots x buffer sizes + W x work unit); plus canonical '
-                        'runs on inputs of growing size (up to 640 MB decoded from a few KB).')
+                        'runs on inputs of growing size (up to 640 MB decoded from a few KB); at a successful exit no heap block may remain allocated (a block lost per compressed block grows with the input).')
     chk.cov['evaluations'] += chk.cov['legs'].get('growth', {}).get('runs', 0)
     chk.assumptions += ['live heap bytes stand in for resident memory (thread stacks are fixed; allocator fragmentation is not modelled)',
                         'the bound uses the program\'s own slot totals, which are separately required to be <= 8W in / 32W+4 out']
